@@ -17,6 +17,7 @@ VAR_POOLS = [
     ['s', 's2', 'b', 'p', 'n', 'g', 'i', 't'],
     ['_', '_9', '_10', '_2', 'a', '_11', 'b', '_3'],      # names reification generates, incl. two-digit ones
     ['b', 'b0', 'n1', 'n01', 'x', 'x0', 'y', 'y00'],      # names that tie under (prefix, int(suffix)) keys
+    ['_', '_\u00b2', 'a', '_\u2460', '_2', 'b', '_\u0663', 'c'],   # "_" + characters that are digits but not 0-9
 ]
 CONCEPTS = ['alpha', 'beta', 'go-01', 'want-01', 'dog', 'bark-01', 'person', 'name', 'chapter',
             'a', 'b', 'x', '_',                          # concepts spelled like variables
